@@ -518,3 +518,43 @@ func H02Long() {
 	}
 	vndAssert(string(clones[n].Name) == "Last", "last-result-name")
 }
+
+// H02Label: a label supplied by the tool on a key that the file then sets itself, possibly
+// to the very same value: from that line on the key is file configuration with the file's
+// value; before it, it is the tool's label; deleting it removes it.
+func H02Label() {
+	c := vndByte("val")
+	vndAssume(vndOr(c == 'v', c == 'w'))
+	del := vndBool("delete")
+	text := []byte("BenchmarkX 1 1 ns\na: ")
+	text = append(text, c, '\n')
+	text = append(text, "BenchmarkX 1 1 ns\n"...)
+	if del {
+		text = append(text, "a:\nBenchmarkX 1 1 ns\n"...)
+	}
+	var r Reader
+	r.Reset(bytes.NewReader(text), "f", "a", "v")
+	var clones []*Result
+	for r.Scan() {
+		if res, ok := r.Result().(*Result); ok {
+			clones = append(clones, res.Clone())
+		}
+	}
+	vndReach("h02:label")
+	want := 2
+	if del {
+		want = 3
+	}
+	vndAssert(len(clones) == want, "one-result-per-benchmark-line")
+	if len(clones) != want {
+		return
+	}
+	pos, ok := clones[0].ConfigIndex("a")
+	vndAssert(ok && !clones[0].Config[pos].File && string(clones[0].Config[pos].Value) == "v", "tool-label-present-before-the-file-sets-the-key")
+	pos, ok = clones[1].ConfigIndex("a")
+	vndAssert(ok && clones[1].Config[pos].File && string(clones[1].Config[pos].Value) == string([]byte{c}), "key-set-by-the-file-is-file-configuration-with-the-files-value")
+	if del {
+		_, ok = clones[2].ConfigIndex("a")
+		vndAssert(!ok, "deleted-key-absent")
+	}
+}
